@@ -149,7 +149,8 @@ func c13Check(f *vFix, op vOp) (vRes, vSnap, vSnap, []string, bool) {
 	add("active", true, post.Active)
 	for _, o := range f.opsSince(n0) {
 		if strings.HasPrefix(o.op, "copy-data") {
-			d = append(d, fmt.Sprintf("data-copied: backend operation %s %s", o.op, o.path))
+			n, rv := vRevFromMountDir(o.path) // not the path itself: it contains the fixture's temporary root
+			d = append(d, fmt.Sprintf("data-copied: backend operation %s for %s revision %d", o.op, n, rv))
 		}
 	}
 	add("config", exp.Config, post.Config)
